@@ -230,22 +230,12 @@ theorem stop_ends_once (cfg : Cfg) (hw : cfg.WF) (ops : List Op) (ov : List (Nat
       | none => [] :=
   stop_filter (sim_reach hw ops) ov i
 
-/-- full statement of the addressing clause: the SubscriptionEnd echoes the reference parameters of the endpoint it is
-    addressed to — those of EndTo if an EndTo endpoint was given (none if that has none), otherwise those of NotifyTo -/
-def end_refs_full : Prop := ∀ r : Rec, r.endRefs = r.endRefsSpec
-
-/-- false of the code: an EndTo endpoint without reference parameters is sent the NotifyTo ones (known finding) -/
-theorem end_refs_full_fails : ¬ end_refs_full := by
-  intro h
-  have := h ⟨0, some 1, [], 0, 0, 0, false, false, true, false⟩
-  exact absurd this (by decide)
-
-/-- in every other case the echoed reference parameters are exactly those of the target endpoint: EndTo's own when it
-    has some, NotifyTo's when no EndTo was given, none when neither has any -/
-theorem end_refs_partial (r : Rec) (h : ¬ (r.endTo.isSome = true ∧ r.endRef = false ∧ r.notifyRef = true)) :
-    r.endRefs = r.endRefsSpec := by
-  unfold Rec.endRefs Rec.endRefsSpec Rec.notifyRefs
-  cases he : r.endTo.isSome <;> cases hr : r.endRef <;> cases hn : r.notifyRef <;> simp_all
+/-- the addressing clause at full strength: the SubscriptionEnd echoes the reference parameters of the endpoint it is
+    addressed to — those of EndTo if an EndTo endpoint was given (none if that has none), otherwise those of NotifyTo
+    (holds since fix 8d3bd96; before, an EndTo endpoint without reference parameters was sent the NotifyTo ones) -/
+theorem end_refs_full (r : Rec) : r.endRefs = r.endRefsSpec := by
+  unfold Rec.endRefs Rec.endRefsSpec
+  cases r.endTo <;> rfl
 
 /-- end messages switched off: nothing is sent -/
 theorem stop_off_sends_nothing (cfg : Cfg) (st : State) (ov : List (Nat × Outcome)) : msgsOf (step cfg st (.stop false ov)) = [] := rfl
